@@ -296,6 +296,12 @@ func (c *Client) Listen() error {
 
 				break
 			}
+			if n > len(buf) {
+				// A stream frame can be larger than the buffer (its size field is 16 bit plus header and padding).
+				c.log.Debugf("Discarding oversized frame of %d bytes", n)
+
+				continue
+			}
 
 			_, err = c.HandleInbound(buf[:n], from)
 			if err != nil {
